@@ -10,6 +10,19 @@
 #include "kernel_contract.h"
 #include "fiber_barrier.h"
 fiber_barrier_t bar;
+/* the queue in which the arrivals of the round that contains arrival number c+1 wait: derived the way the library does it
+   (one queue up to fix 619b508, two queues alternating by round after it) */
+#define BAR_NQ (sizeof(bar.waiters) / sizeof(mpsc_fifo_t))
+static inline mpsc_fifo_t* bar_q(uint64_t c) {
+  mpsc_fifo_t* const q0 = (mpsc_fifo_t*)&bar.waiters;
+  if (BAR_NQ > 1 && ((c / 3) & 1)) return q0 + 1;
+  return q0;
+}
+#define BAR_Q(c) bar_q(c)
+/* the pushes of vm_setup go through two distinct non-inlined functions with a constant queue address each (an atomic exchange on a
+   computed address inside the single-threaded set-up phase trips a CBMC restriction on atomic sections) */
+__attribute__((noinline)) static void push_q0(mpsc_fifo_node_t* n) { mpsc_fifo_push((mpsc_fifo_t*)&bar.waiters, n); }
+__attribute__((noinline)) static void push_q1(mpsc_fifo_node_t* n) { mpsc_fifo_push((mpsc_fifo_t*)&bar.waiters + (BAR_NQ > 1 ? 1 : 0), n); }
 uint64_t c0;
 uint64_t ret1 = 99;
 void vm_init(void) {
@@ -28,7 +41,7 @@ void vm_setup(void) {
     fiber_t* f = k_fiber[t];
     mpsc_fifo_node_t* node = f->mpsc_fifo_node;
     node->data = f; f->mpsc_fifo_node = 0;
-    mpsc_fifo_push(&bar.waiters, node);
+    if (BAR_NQ > 1 && ((c / 3) & 1)) push_q1(node); else push_q0(node);
     f->state = FIBER_STATE_WAITING;
     k_suspended[t] = 1;
   }
@@ -42,11 +55,11 @@ void vm_final(void) {
   if (ar == 2) {
     vm_assert(!vm_is_parked(1) && ret1 == FIBER_BARRIER_SERIAL_FIBER, "C12 barrier: the count-th arrival of a round returns and is told it is the serial fiber");
     vm_assert(k_runnable[2] == 1 && k_runnable[3] == 1, "C12 barrier: the last arriver releases every waiter of its round exactly once");
-    vm_assert(bar.waiters.head->next == 0, "C12 barrier: waiter queue empty after the round was released");
+    vm_assert(BAR_Q(c0)->head->next == 0, "C12 barrier: waiter queue empty after the round was released");
   } else {
     vm_assert(vm_is_parked(1) && ret1 == 99, "C12 barrier: a fiber passed the barrier before count fibers had arrived at its round");
     vm_assert(k_runnable[2] == 0 && k_runnable[3] == 0 && k_runnable[1] == 0, "C12 barrier: a waiter was released although the round is not complete");
-    uint64_t n = 0; mpsc_fifo_node_t* p = bar.waiters.head->next;
+    uint64_t n = 0; mpsc_fifo_node_t* p = BAR_Q(c0)->head->next;
     for (int k = 0; k < 4 && p; k++) { n++; p = p->next; }
     vm_assert(n == ar + 1, "C12 barrier: an early arriver is queued exactly once");
   }
